@@ -373,7 +373,37 @@ func c02Trees(c *core.Ctx) {
 // c02Stmts: universe (iii) — statement families (every statement form x body kind x neighbour whose
 // first token is ( [ - ++ ` identifier keyword, nested function expressions) in every layout with at
 // most k deviations (gap kinds incl. comments, blank lines, CRLF; optional semicolons dropped).
+// c02MultiLine: tokens that contain line breaks themselves (multi-line templates, continued strings) in
+// the positions where "a line break before the next token" matters: after return, before ++/--, before ( and [.
+func c02MultiLine(c *core.Ctx) {
+	lits := []string{"`a\nb`", "`\n`", "'a\\\nb'", "`x`", "`\n\n`"}
+	tmpls := []string{"function f() { return %s }", "function f() { return %s\n}", "function f() { return\n%s }", "x = %s\n++y", "x = %s ++y", "%s\n(a)", "x = %s\n[1]", "x = [%s, %s]\ny", "a(%s)\n--b",
+		"if (a) x = %s\nelse y = 1", "let s = %s\nlet t = %s", "x = a + %s\n- b", "f(%s, function() { return %s })", "x = %s.length\n(b)", "return %s"}
+	for _, lit := range lits {
+		for _, t := range tmpls {
+			if !c.Next() || c.Tick() {
+				continue
+			}
+			src := strings.ReplaceAll(t, "%s", lit)
+			c.Cur(src)
+			c.Inc("reference_parses")
+			if _, _, ok := ref.GShape(src); !ok {
+				c.Inc("stmt_texts_outside_domain")
+				continue
+			}
+			c.Inc("programs")
+			c.Inc("multiline_token_programs")
+			_, kd, d := c02Check(src)
+			if kd != "" && c.ShrinkOK(kd) {
+				pl, _ := json.Marshal(c02Payload{src})
+				c.Violate(core.Violation{Kind: kd, Config: "multiline-token", Case: fmt.Sprintf("%q", src), Detail: d, Payload: pl, Size: len(src)})
+			}
+		}
+	}
+}
+
 func c02Stmts(c *core.Ctx) {
+	c02MultiLine(c)
 	level, k := 1, 1
 	gaps := gen.GapAlts
 	if c.Thorough() {
